@@ -210,6 +210,10 @@ func runPoolWorkload(r *gen.R, c poolCfg, emit func(string)) {
 	s.Handle("g.$id", res.Call("do", handler), res.Call("qe", qeHandler), res.Group("grp.${id}"))
 	s.Handle("p.$id", res.Call("do", handler), res.Parallel(true))
 	s.Handle("", res.Call("do", handler)) // the root resource: its group is the service name
+	// a mounted sub-mux with a wildcard pattern whose group tag sits behind the mount point
+	s.Route("sub", func(m *res.Mux) {
+		m.Handle("$type.$id.>", res.Group("mg.${id}"), res.Call("do", handler))
+	})
 
 	emit("reset")
 	var qsubmitted int64
@@ -293,7 +297,9 @@ func runPoolWorkload(r *gen.R, c poolCfg, emit func(string)) {
 					case c.requests && kind < 4:
 						// a request message through the connection
 						var subj, group string
-						switch sr.Intn(6) {
+						switch sr.Intn(7) {
+						case 6:
+							subj, group = fmt.Sprintf("call.pool.sub.%s.%d.%s.do", sr.Pick([]string{"a", "b"}), gi, sr.Pick([]string{"x", "y.z"})), fmt.Sprintf("mg.%d", gi)
 						case 5:
 							subj, group = "call.pool.do", "pool"
 						case 0:
